@@ -97,8 +97,7 @@ Supported(p, t) ==
   /\ ~HasBad(t)
   /\ CASE p = "gostring" -> ~HasExtPrivate(t)    \* C06: types with exported fields
        [] p \in ScalarPlugins -> TRUE
-       [] p = "sort" -> ~Unordered(t)        \* over []T, ordered by < or derived Compare
-       [] p \in {"min", "max"} -> TRUE        \* bool and complex go through derived Compare            \* over []T, ordered by < or derived Compare
+       [] p \in {"sort", "min", "max"} -> TRUE   \* over []T; types without < (bool, complex) go through derived Compare            \* over []T, ordered by < or derived Compare
        [] p \in {"contains", "unique", "union", "intersect"} -> TRUE                       \* over []T
        [] p = "set" -> Comparable(t)                                                         \* []T -> map[T]struct{}
        [] p = "keys" -> t \in KeyTypes                                                       \* map[T]int
@@ -126,7 +125,6 @@ Init == /\ case \in [t : Universe, p : PluginsG, f : Forms]
         /\ (case.p = "keys" => (case.t \in KeyTypes \/ WithBad))
         /\ (case.p = "set" /\ ~WithBad => Comparable(case.t))
         /\ (~WithBad => Supported(case.p, case.t))
-        /\ ((~WithBad /\ case.f = "nested" /\ case.p \in {"unique", "min", "max"}) => ~Unordered(case.t))  \* the nested form sorts first
         /\ ((WithBad /\ case.p \in {"keys", "set"}) => Comparable(case.t))   \* otherwise the USER's map type is already invalid
         /\ done = FALSE
 Emit == /\ ~done /\ done' = TRUE /\ UNCHANGED case
